@@ -702,14 +702,8 @@ def _sep_rule(ck, F):
                 want = par["get_argument_separator_token"].get(dot)
                 for k, bi in enumerate(joins, 1):
                     a = pb.term(bi)["args"][1]
-                    got = set()
-                    lit = _cs(pb, a) if _cs is not None else None
-                    if lit is not None and len(lit) == 1:
-                        got = {ord(lit)}
-                    else:
-                        pl = op_place(a)
-                        if pl is not None and not place_proj(pl):
-                            got = set(vals.get(pl["l"], ()))
+                    v1 = _emitted_value(pb, a, vals, _cs, None)
+                    got = {v1} if v1 is not None else set()
                     toks = set()
                     for v in got:
                         toks |= lex.get(chr(v), set())
@@ -766,6 +760,8 @@ def _emissions(F, body, blocks, vals, base_depth, cs, argmap=None, depth=0):
         q = body.callee_q(t) or ""
         last = q.rsplit("::", 1)[-1]
         d = base_depth + body.loop_depth(bi)
+        if last == "join":
+            d += 1          # the pieces a join separates are one nesting level below the statement that joins them
         if last in ("push", "push_str", "join") and len(t["args"]) == 2 and ("String" in q or "str" in q or "slice" in q or "Join" in q):
             v = _emitted_value(body, t["args"][1], vals, cs, argmap)
             if v is not None:
@@ -804,6 +800,19 @@ def _emitted_value(body, a, vals, cs, argmap):
     if pl is None or place_proj(pl):
         return None
     l = pl["l"]
+    # a one-character String/&str made from a char (`sep.to_string()`, `String::from(sep)`, `&*s`, `s.as_str()`): the char
+    tr = body.trace(a)
+    for _ in range(4):
+        if tr["kind"] != "call":
+            break
+        q = (body.callee_q(tr["t"]) or "").rsplit("::", 1)[-1]
+        if q in ("to_string", "from", "into", "deref", "as_str", "as_ref", "borrow", "to_owned", "clone") and tr["t"]["args"]:
+            v = _emitted_value(body, tr["t"]["args"][0], vals, cs, argmap)
+            if v is not None:
+                return v
+            tr = body.trace(tr["t"]["args"][0])
+            continue
+        break
     # follow plain copies back to a parameter / tracked local
     for _ in range(6):
         if argmap is not None and 1 <= l <= body.nargs:
